@@ -165,9 +165,10 @@ def outcome_digest(r):
 
 def evaluator_part(chk, tier, seed, programs):
     sch = schedules(tier, seed)
+    light = [sch[0], sch[2], sch[3], sch[-1]]    # never, every step, one period, one explicit step set
     cases, meta = [], []
     for name, src in programs:
-        for s in sch:
+        for s in (light if (tier == "quick" and name.startswith(("gen:", "inh:"))) else sch):
             c = {"k": "eval", "src_bytes": list(src), "gc": s, "counts": True, "max_stack": 200}
             cases.append(c)
             meta.append((name, s))
